@@ -8,7 +8,7 @@ for d in $DIRS; do
   id=${d%%-*}
   p=seeded/$d/patch.diff; [ -f seeded/$d/patch.ported.diff ] && p=seeded/$d/patch.ported.diff
   checks=$id
-  case $d in C01-m1) checks="C01 C03";; C02-m2) checks="C02 C07";; C04-m2) checks="C04 C08";; C09-m2) checks="C09 C20";; C02-m4) checks="C02 C07";; esac
+  case $d in C01-m1) checks="C01 C03";; C02-m2) checks="C02 C07";; C04-m2) checks="C04 C08";; C09-m2) checks="C09 C20";; C02-m4) checks="C02 C07";; C06-m5) checks="C06 C10";; esac
   for c in $checks; do
     out=$(tools/withpatch.sh $p ./check $c quick 2>&1)
     sig=$(echo "$out" | grep -a "violation detail" | sed 's/violation detail: \([^ ]*\).*/\1/' | sort | uniq -c | sort -rn | head -3 | awk '{printf "%s(x%s) ", $2, $1}')
